@@ -1,11 +1,45 @@
 import CspuzModel.Model.Index
 import CspuzModel.Spec.PySlice
+import Mathlib.Data.List.Sort
 namespace Cspuz.Proofs.C13
 open Cspuz Cspuz.Spec
 
--- TO BE PROVED (agent task): see Properties/C13.lean
--- theorem getitem2D_eq_spec : ∀ (α : Type) (data : List α) (h w : Nat) (key : Key2), data.length = h * w →
---     getitem2D data h w key = specGetitem (toRows data h w) h w key
--- theorem reshape_spec : Cspuz.C13.statement_reshape (unfolded)
+/-! ### Arithmetic -/
+
+/-- `j < ⌈a / m⌉ ↔ m * j < a`. -/
+theorem lt_ceil_iff (a m : Int) (hm : 0 < m) (j : Nat) (ha : 0 < a) :
+    j < ((a + m - 1) / m).toNat ↔ m * (j : Int) < a := by
+  have h1 : ((j : Int) + 1 ≤ (a + m - 1) / m) ↔ ((j : Int) + 1) * m ≤ a + m - 1 :=
+    Int.le_ediv_iff_mul_le hm
+  have h2 : ((j : Int) + 1) * m = m * (j : Int) + m := by
+    rw [Int.add_mul, Int.mul_comm, Int.one_mul]
+  rw [h2] at h1
+  constructor
+  · intro h
+    have : (j : Int) + 1 ≤ (a + m - 1) / m := by omega
+    have := h1.mp this
+    omega
+  · intro h
+    have : (j : Int) + 1 ≤ (a + m - 1) / m := h1.mpr (by omega)
+    omega
+
+/-! ### Filter of a sorted list as an arithmetic progression -/
+
+theorem filter_eq_map_range (r : Nat → Nat → Prop) [Std.Antisymm r] [Std.Irrefl r]
+    (L : List Nat) (hL : L.Pairwise r) (p : Nat → Bool) (f : Nat → Nat) (cnt : Nat)
+    (hmono : ∀ j k, j < k → k < cnt → r (f j) (f k))
+    (hmem : ∀ x, (x ∈ L ∧ p x = true) ↔ ∃ j, j < cnt ∧ f j = x) :
+    L.filter p = (List.range cnt).map f := by
+  apply List.Pairwise.eq_of_mem_iff (r := r)
+  · exact hL.filter p
+  · rw [List.pairwise_map]
+    refine (List.pairwise_lt_range (n := cnt)).imp_of_mem ?_
+    intro a b ha hb hab
+    exact hmono a b hab (List.mem_range.mp hb)
+  · intro a
+    rw [List.mem_filter, hmem a, List.mem_map]
+    constructor
+    · rintro ⟨j, hj, rfl⟩; exact ⟨j, List.mem_range.mpr hj, rfl⟩
+    · rintro ⟨j, hj, rfl⟩; exact ⟨j, List.mem_range.mp hj, rfl⟩
 
 end Cspuz.Proofs.C13
